@@ -279,6 +279,11 @@ func finish(s *sched) {
 		w.Rec(world.Ev{Actor: "sched", Kind: "secret-mutated"})
 	}
 	if s.ref != nil {
+		for k, st := range s.ref.TakenSteps() {
+			if st >= 0 {
+				w.Rec(world.Ev{Actor: "loader", Kind: "config-taken", A: int64(k), B: int64(st)})
+			}
+		}
 		if mut := s.ref.MutatedPublished(); len(mut) > 0 {
 			w.Rec(world.Ev{Actor: "loader", Kind: "published-mutated", S: fmt.Sprint(mut)})
 		}
@@ -309,7 +314,7 @@ func seal(w *world.World, res *Result) {
 	// signature: sequence of event kinds with targets and bucketed sizes
 	h := fnv.New64a()
 	raw := sha256.New()
-	for _, e := range w.Events {
+	for _, e := range res.Events {
 		if e.Kind == "alloc" {
 			continue // a measurement, not part of the history
 		}
@@ -332,7 +337,7 @@ func seal(w *world.World, res *Result) {
 	// scheduler step reached their seams in a different real-time order (GOMAXPROCS > 1).
 	per := map[string]*strings.Builder{}
 	var keys []string
-	for _, e := range w.Events {
+	for _, e := range res.Events {
 		k := fmt.Sprintf("%s:%d", e.Actor, e.Conn)
 		if e.Actor == "log" || e.Actor == "park" || e.Actor == "sink" || e.Actor == "keychain" || e.Kind == "alloc" {
 			continue // shared seams: their interleaving across connections is not per-actor
